@@ -144,7 +144,20 @@ pub fn valid_ndl(rng: &mut Rng) -> String {
 fn mutate(target: &str, mut v: Vec<u8>, rng: &mut Rng) -> Vec<u8> {
     if target == "ndl" {
         let tokens: [&[u8]; 14] = [b"[", b"]", b"'", b"=", b"\t", b"    ", b"\n", b"\r\n", b"[IPtype x='1']", b"[Network id='1']", b"[Machine]", b"name", "\u{e9}".as_bytes(), b" "];
-        for _ in 0..1 + rng.below(4) {
+        // whitespace and other multi-byte characters where the grammar allows
+        // blanks: right after a closing bracket, between arguments, at line ends
+        if rng.chance(1, 3) {
+            let text = String::from_utf8_lossy(&v).to_string();
+            let spots: Vec<usize> = text.char_indices().filter(|(_, c)| *c == ']' || *c == ' ' || *c == '\n' || *c == '[').map(|(i, c)| i + c.len_utf8()).collect();
+            if !spots.is_empty() {
+                let at = spots[rng.below(spots.len() as u64) as usize];
+                let ws = *rng.pick(&["\u{3000}", "\u{2003}", "\u{2028}", "\u{a0}", "\u{feff}", " ", "  ", "\t", "\u{1F600}", "\u{e9}"]);
+                let mut t = text.clone();
+                t.insert_str(at, ws);
+                v = t.into_bytes();
+            }
+        }
+        for _ in 0..rng.below(4) {
             if v.is_empty() {
                 break;
             }
@@ -183,6 +196,15 @@ fn mutate(target: &str, mut v: Vec<u8>, rng: &mut Rng) -> Vec<u8> {
                 }
             }
         }
+        return v;
+    }
+    if target == "ipv4" && v.len() >= 20 && rng.chance(1, 3) {
+        // total length / flags / fragment offset extremes
+        let tl = *rng.pick(&[0u16, 1, 5, 19, 20, 21, 28, 0x7fff, 0xffff]);
+        v[2..4].copy_from_slice(&tl.to_be_bytes());
+        let fo = *rng.pick(&[0u16, 1, 2, 3, 0x1fff, 0x1ffe]);
+        let flags = *rng.pick(&[0u16, 0x2000, 0x4000, 0x6000]);
+        v[6..8].copy_from_slice(&(flags | fo).to_be_bytes());
         return v;
     }
     match rng.below(8) {
